@@ -98,6 +98,14 @@ type C16Spec struct {
 	// start barrier, Own-1 more after the prologue, and one for every other
 	// table, which is then also rendered in its house style
 	Own int `json:"own_decorations,omitempty"`
+	// Kinds: every goroutine also owns Kinds tables whose cells hold items of
+	// every Go kind, of types all goroutines have in common, zero and non-zero
+	// values (c16_r6.go); rendered in the five core formats
+	Kinds int `json:"kind_tables,omitempty"`
+	// Hammer: every goroutine also renders one small table of its own Hammer
+	// times in each core format class of Formats (all five when Formats is
+	// empty): schedules dense in one renderer (c16_r6.go)
+	Hammer int `json:"hammer,omitempty"`
 	// StuckAfter: seconds without any render finishing after which the child
 	// looks whether all its goroutines are blocked (default 3)
 	StuckAfter int `json:"stuck_after_s,omitempty"`
@@ -643,6 +651,14 @@ func c16RunProgramme(spec C16Spec, g int, prog []c16Tab, names, formats []string
 		out = append(out, c16Errors(t))
 		labels = append(labels, fmt.Sprintf("table %d errors held at the end", k))
 	}
+	if spec.Kinds > 0 {
+		o, l := c16KindTables(spec, g)
+		out, labels = append(out, o...), append(labels, l...)
+	}
+	if spec.Hammer > 0 {
+		o, l := c16Hammer(spec, g, strings.HasPrefix(salt, "conc"))
+		out, labels = append(out, o...), append(labels, l...)
+	}
 	if g < spec.Tall && c16WantsDecorations(spec) {
 		t := c16TallTable(g)
 		for _, f := range []string{"texttable:" + names[g%len(names)], "auto:" + names[(g+1)%len(names)]} {
@@ -1160,16 +1176,17 @@ func c16RunCase(spec C16Spec) CaseOut {
 	tags := append([]string{"kind=run", fmt.Sprintf("goroutines=%d", spec.G), fmt.Sprintf("gomaxprocs=%d", spec.Procs),
 		fmt.Sprintf("readers=%d", spec.Readers), fmt.Sprintf("tables-per-goroutine=%d", spec.Tables), "formats=" + fclass,
 		fmt.Sprintf("every-table-in-every-format=%v", spec.Full), fmt.Sprintf("cold-start=%v", spec.ColdFirst), fmt.Sprintf("reference-in-own-process=%v", spec.Pristine),
-		fmt.Sprintf("tall-tables=%d", spec.Tall), fmt.Sprintf("style-storm=%v", spec.Storm > 0), fmt.Sprintf("own-decorations-registered-concurrently=%v", spec.Own > 0), fmt.Sprintf("race=%v", obs.Race), fmt.Sprintf("race-detector=%v", obs.RaceDetect)}, outcomeTags...)
+		fmt.Sprintf("tall-tables=%d", spec.Tall), fmt.Sprintf("style-storm=%v", spec.Storm > 0), fmt.Sprintf("own-decorations-registered-concurrently=%v", spec.Own > 0),
+		fmt.Sprintf("items-of-every-kind=%v", spec.Kinds > 0), fmt.Sprintf("dense-in-one-renderer=%v", spec.Hammer > 0), fmt.Sprintf("race=%v", obs.Race), fmt.Sprintf("race-detector=%v", obs.RaceDetect)}, outcomeTags...)
 	if obs.Result != nil && obs.Result.ErrTables > 0 {
 		tags = append(tags, "tables-recording-errors")
 	}
 	return CaseOut{
 		Coq:        term,
 		Desc:       obs,
-		Size:       spec.G*spec.Tables*spec.Iters*(1+spec.MaxRows*spec.MaxCells) + spec.Readers + spec.G*spec.Own,
+		Size:       spec.G*spec.Tables*spec.Iters*(1+spec.MaxRows*spec.MaxCells) + spec.Readers + spec.G*spec.Own + spec.G*spec.Iters*(4*spec.Kinds+spec.Hammer/8),
 		Tags:       tags,
-		Key:        fmt.Sprintf("%d/%d/%d/%d/%d/%d/%s/%v/%v/%s", spec.Seed, spec.G, spec.Procs, spec.Tables, spec.Iters, spec.Readers, fclass, spec.ColdFirst, spec.Pristine, obs.Sig) + fmt.Sprintf("/tall%d/storm%d/own%d", spec.Tall, spec.Storm, spec.Own),
+		Key:        fmt.Sprintf("%d/%d/%d/%d/%d/%d/%s/%v/%v/%s", spec.Seed, spec.G, spec.Procs, spec.Tables, spec.Iters, spec.Readers, fclass, spec.ColdFirst, spec.Pristine, obs.Sig) + fmt.Sprintf("/tall%d/storm%d/own%d/kinds%d/hammer%d", spec.Tall, spec.Storm, spec.Own, spec.Kinds, spec.Hammer),
 		Nontrivial: spec.G >= 2 && renders > 0,
 	}
 }
@@ -1274,6 +1291,32 @@ func c16Shrink(raw json.RawMessage) []json.RawMessage {
 		if s.Own > 2 {
 			c = s
 			c.Own = (s.Own + 1) / 2
+			add(c)
+		}
+	}
+	if s.Kinds > 0 {
+		c := s
+		c.Kinds = 0
+		add(c)
+		c = s
+		c.Tables, c.Iters, c.MaxRows, c.MaxCells, c.Tall, c.Storm, c.Own, c.Hammer, c.Readers = 1, 1, 1, 1, 0, 0, 0, 0, 0 // the kind tables and little else
+		add(c)
+		if s.Kinds > 1 {
+			c = s
+			c.Kinds = (s.Kinds + 1) / 2
+			add(c)
+		}
+	}
+	if s.Hammer > 0 {
+		c := s
+		c.Hammer = 0
+		add(c)
+		c = s
+		c.Tables, c.Iters, c.MaxRows, c.MaxCells, c.Tall, c.Storm, c.Own, c.Kinds, c.Readers = 1, 1, 1, 1, 0, 0, 0, 0, 0 // the dense renders and little else
+		add(c)
+		if s.Hammer > 50 {
+			c = s
+			c.Hammer = (s.Hammer + 1) / 2
 			add(c)
 		}
 	}
@@ -1391,6 +1434,7 @@ func init() {
 				}
 				out = append(out, mustJSON(s))
 			}
+			out = append(out, c16R6Cases(r, tier)...)
 			// the inventory case comes last: it has been running in the background meanwhile
 			out = append(out, mustJSON(C16Spec{Kind: "facts"}))
 			return out
